@@ -293,16 +293,17 @@ class ConcurrentExecutor(ABC, Generic[CallableType, ResultType]):
         ) = None
 
         for exe_state in self.executables_with_state:
-            if exe_state.status in {BranchStatus.PENDING, BranchStatus.RUNNING}:
+            # Read each field once: the timer thread resets a due branch to PENDING (status and
+            # suspend_until) without holding the decision lock, so a second read may see None.
+            status = exe_state.status
+            suspend_until = exe_state.suspend_until
+            if status in {BranchStatus.PENDING, BranchStatus.RUNNING}:
                 # Exit here! Still have tasks that can make progress, don't suspend.
                 return SuspendResult.do_not_suspend()
-            if exe_state.status is BranchStatus.SUSPENDED_WITH_TIMEOUT:
-                if (
-                    exe_state.suspend_until
-                    and exe_state.suspend_until < earliest_timestamp
-                ):
-                    earliest_timestamp = exe_state.suspend_until
-            elif exe_state.status is BranchStatus.SUSPENDED:
+            if status is BranchStatus.SUSPENDED_WITH_TIMEOUT:
+                if suspend_until and suspend_until < earliest_timestamp:
+                    earliest_timestamp = suspend_until
+            elif status is BranchStatus.SUSPENDED:
                 indefinite_suspend_task = exe_state
 
         # All tasks are in final states and at least one of them is a suspend.
